@@ -118,7 +118,7 @@ def gen_plan(seed: int, run: int, tier: str) -> dict:
         "snapshot_interval": rng.choice([2, 3, 100]),
         # pre-emption also inside copy.deepcopy (a reader that copies outside the lock sees a
         # torn snapshot); only for the cheap in-process backends
-        "trace_copy": (not ("rdb" in kind or "cached" in kind)) and rng.random() < 0.3,
+        "trace_copy": (not ("rdb" in kind or "cached" in kind)) and rng.random() < 0.3,        "pickled_clients": rng.random() < 0.3,
     }
     plan = {"check": ID, "seed": seed, "run": run, "cfg": cfg, "setup": setup, "tasks": tasks, "sched": {"seed": rng.getrandbits(48)}}
     if kind.startswith("grpc(") and rng.random() < 0.35:
